@@ -370,8 +370,36 @@ static void roundtrip(Rng &r, int p, const std::string &tid, const std::string &
   nostd::shared_ptr<trace_api::Span> sp(new trace_api::DefaultSpan(sc));
   ctx = ctx.SetValue(trace_api::kSpanKey, sp);
   Carrier c;
+  // A reused carrier: one time in three the header map already holds what the SAME propagator injected for a
+  // different context with the opposite sampled decision (a proxy copying incoming headers, a pooled request
+  // object).  Inject must overwrite every header it owns, so the round trip below is judged exactly as on a
+  // fresh carrier.  (Seeded change C16-w2-2 left a stale X-B3-Sampled: 1 behind.)
+  bool reused = r.chance(1, 3);
+  if (reused)
+  {
+    uint8_t other_flags = static_cast<uint8_t>((flags ^ 1) | (r.coin() ? 0 : (r.below(256) & 0xfe)));
+    std::string otid = tid, osid = sid;
+    otid[r.below(16)] = static_cast<char>(otid[0] ^ 0x5a ^ 1);
+    osid[r.below(8)]  = static_cast<char>(osid[0] ^ 0x33 ^ 1);
+    bool nz = false;
+    for (char ch : otid)
+      nz |= ch != 0;
+    bool nz2 = false;
+    for (char ch : osid)
+      nz2 |= ch != 0;
+    if (nz && nz2)
+    {
+      trace_api::SpanContext osc(trace_id_of(otid), span_id_of(osid), trace_api::TraceFlags(other_flags), false);
+      nostd::shared_ptr<trace_api::Span> osp(new trace_api::DefaultSpan(osc));
+      context_api::Context octx = context_api::Context{}.SetValue(trace_api::kSpanKey, osp);
+      propagator(p).Inject(c, octx);
+      R.count("roundtrips_reused_carrier");
+    }
+    else
+      reused = false;
+  }
   propagator(p).Inject(c, ctx);
-  std::string cls     = rt_class(p, flags);
+  std::string cls     = rt_class(p, flags) + (reused ? ":reused-carrier" : "");
   std::string want_t  = vf::hexs(tid.data(), 16), want_s = vf::hexs(sid.data(), 8);
   bool want_sampled   = (flags & 1) != 0;
   std::string witness = std::string(kPropName[p]) + " context tid=" + want_t + " sid=" + want_s + " flags=" + hex_byte(flags) +
